@@ -1365,6 +1365,18 @@ impl fmt::Display for Expr {
                     write!(f, "{expr}{op}")
                 } else if op == &UnaryOperator::Not {
                     write!(f, "{op} {expr}")
+                } else if matches!(
+                    (op, expr.as_ref()),
+                    (
+                        UnaryOperator::Minus | UnaryOperator::Plus,
+                        Expr::UnaryOp {
+                            op: UnaryOperator::Minus | UnaryOperator::Plus,
+                            ..
+                        }
+                    )
+                ) {
+                    // `- -a` must not print as `--a` (a line comment)
+                    write!(f, "{op} {expr}")
                 } else {
                     write!(f, "{op}{expr}")
                 }
